@@ -95,11 +95,16 @@ def render_scc(lines, df, parity=True, blank_lines=True, seps=None):
   out = ["Scenarist_SCC V1.0", ""]
   for lab, ws in lines:
     toks = []
-    for w in ws:
+    for wi, w in enumerate(ws):
       b1, b2 = (w >> 8) & 0x7F, w & 0x7F
-      if parity:
+      # parity: True = every byte carries its odd-parity bit, False = none does, "mixed" = some words do and some do not (the
+      # two copies of a doubled code may differ in nothing but that bit), digits then in either letter case
+      if parity is True or (parity == "mixed" and (wi * 5 + len(ws)) % 3 != 0):
         b1, b2 = odd_parity(b1), odd_parity(b2)
-      toks.append("%02x%02x" % (b1, b2))
+      tok = "%02x%02x" % (b1, b2)
+      if parity == "mixed" and wi % 4 == 1:
+        tok = tok.upper() if wi % 8 == 1 else "".join(c.upper() if k % 2 else c for k, c in enumerate(tok))
+      toks.append(tok)
     out.append(label_str(lab, df, seps) + "\t" + " ".join(toks))
     if blank_lines:
       out.append("")
